@@ -11,6 +11,8 @@ CONSTANTS
   MaxTouched = 3
   GenMaxMixed = 2
   GenWithRepeat = FALSE
+  MaxPasses = 1
+  ReKeys = {}
   AsCoded = TRUE
 INVARIANT GPrint
 CHECK_DEADLOCK FALSE
